@@ -25,9 +25,24 @@
 //! Observations, stored answers and pending futures are NOT part of the BFS
 //! state key: for a correct library they are a function of the reader's
 //! pinned version, which the model state holds.
+//!
+//! Part (u) — the same readers, the same observations and the same oracles,
+//! but the writer is the library's own writer front end
+//! `zonetree::update::ZoneUpdater` (a second BFS with its own alphabet):
+//! new / apply(AddRecord | DeleteRecord) with the owner at the apex and below
+//! it / apply(DeleteAllRecords) / apply(BeginBatchDelete) /
+//! apply(BeginBatchAdd) / apply(Finished) / dropping the updater at any
+//! point. The model follows the documentation of `ZoneUpdater::apply` and
+//! `ZoneUpdate` only: the edits in progress become the current version at
+//! BeginBatchDelete and at Finished and nowhere else, BeginBatchAdd and
+//! Finished put their SOA into the version being written, dropping the
+//! updater leaves the last committed version, a finished updater refuses
+//! further updates and has given the zone back to other writers, an
+//! unfinished one has not.
 use domain::base::iana::Rtype;
 use domain::zonetree::error::OutOfZone;
-use domain::zonetree::types::StoredName;
+use domain::zonetree::types::{StoredName, StoredRecord, ZoneUpdate};
+use domain::zonetree::update::ZoneUpdater;
 use domain::zonetree::{Answer, ReadableZone, SharedRrset, WalkOp, WritableZone, WritableZoneNode, Zone};
 use mc::zfix::*;
 use mc::*;
@@ -65,12 +80,83 @@ enum Op {
     WCommitFault,
     WStaleUpd(u8, u8),
     WDrop,
+    /// ZoneUpdater::new(zone): while another (finished, still alive) updater
+    /// exists it must nevertheless get the zone
+    UNew,
+    /// apply(AddRecord(urec(k)))
+    UAdd(u8),
+    /// apply(DeleteRecord(urec(k)))
+    UDel(u8),
+    /// apply(DeleteAllRecords)
+    UDeleteAll,
+    /// apply(BeginBatchDelete(SOA of the version being edited)): a commit point
+    UBeginDel,
+    /// apply(BeginBatchAdd(SOA with the next serial))
+    UBeginAdd,
+    /// apply(Finished(SOA with the next serial)): a commit point, closes the updater
+    UFinished,
+    /// the updater is dropped (before Finished: the edits in progress are abandoned)
+    UDrop,
     RAcq(u8),
     RObs(u8),
     RRel(u8),
 }
 
 const NAMES: [&str; 3] = ["a", "b.a", "c"];
+/// The records the updater alphabet adds and deletes: owner (relative, "" = the apex) and data.
+fn urec(k: u8) -> (RelName, Rd) {
+    match k {
+        0 => (rel(""), Rd::A(7)),    // at the apex, not in the initial content
+        1 => (rel("a"), Rd::A(2)),   // below the apex, joins the RRset of the initial content
+        2 => (rel("a"), Rd::A(1)),   // below the apex, in the initial content
+        3 => (rel(""), Rd::NsOut),   // at the apex, in the initial content
+        4 => (rel("b.a"), Rd::A(3)), // below the apex, the nodes do not exist yet
+        _ => panic!("no such record in the updater alphabet"),
+    }
+}
+const UREC_ALL: u8 = 5;
+
+/// Where an updater is in the sequences `ZoneUpdate` documents: nothing but
+/// single updates so far / after BeginBatchDelete / after BeginBatchAdd.
+const U_NONE: u8 = 0;
+const U_NORMAL: u8 = 1;
+const U_DEL: u8 = 2;
+const U_ADD: u8 = 3;
+/// Finished was applied; the updater value is still alive
+const U_FINISHED: u8 = 4;
+/// an update outside the documented sequences was applied: what the version
+/// being written holds is not specified any more, what is committed still is
+const U_UNSPEC: u8 = 5;
+
+/// AXFR-like: DeleteAllRecords?, (AddRecord | DeleteRecord)*, Finished.
+/// IXFR-like: (BeginBatchDelete, DeleteRecord*, BeginBatchAdd, AddRecord*)+, Finished;
+/// BeginBatchDelete "if not already in batching mode" may follow single updates.
+fn in_grammar(phase: u8, op: Op) -> bool {
+    matches!((phase, op), (U_NORMAL, Op::UAdd(_) | Op::UDel(_) | Op::UDeleteAll | Op::UBeginDel | Op::UFinished) | (U_DEL, Op::UDel(_) | Op::UBeginAdd) | (U_ADD, Op::UAdd(_) | Op::UBeginDel | Op::UFinished))
+}
+
+/// Updates outside the documented sequences that are not documented to
+/// commit anything: whatever the library makes of them (an error included),
+/// nothing may become visible.
+fn off_grammar_not_committing(phase: u8, op: Op) -> bool {
+    matches!((phase, op), (U_NORMAL, Op::UBeginAdd) | (U_DEL, Op::UAdd(_) | Op::UDeleteAll) | (U_ADD, Op::UDel(_) | Op::UDeleteAll | Op::UBeginAdd))
+}
+
+fn soa_serial(c: &Content) -> Option<u32> {
+    c.names.get(&vec![]).and_then(|s| s.iter().find_map(|r| if let Rd::Soa(x) = r { Some(*x) } else { None }))
+}
+
+/// the highest serial any version (committed or being written) has had
+fn top_serial(m: &Model) -> u32 {
+    m.committed.iter().chain(m.working.iter()).filter_map(soa_serial).max().unwrap_or(0)
+}
+
+fn put_soa(c: &mut Content, serial: u32) {
+    let s = c.names.entry(vec![]).or_default();
+    s.retain(|r| !matches!(r, Rd::Soa(_)));
+    s.insert(Rd::Soa(serial));
+}
+
 const QNAMES: [&str; 7] = ["a", "b.a", "c", "x.a", "y.b.a", "*.a", ""];
 /// every type the zone content of this harness can hold (A data, the apex SOA and NS, the CNAME at "c")
 const QTYPES: [Rtype; 4] = [Rtype::A, Rtype::SOA, Rtype::NS, Rtype::CNAME];
@@ -93,6 +179,8 @@ fn show_q(q: &str) -> &str {
 struct Model {
     committed: Vec<Content>,
     working: Option<Content>,
+    /// U_*: the writer is a ZoneUpdater in this phase (U_NONE: there is no updater)
+    upd: u8,
     diff_mode: bool,
     stale_node: bool,
     stale_written: bool,
@@ -107,6 +195,7 @@ struct Real {
     rt: tokio::runtime::Runtime,
     writer: Option<(Box<dyn WritableZone>, Option<Box<dyn WritableZoneNode>>)>,
     stale: Option<Box<dyn WritableZoneNode>>,
+    updater: Option<ZoneUpdater<StoredName>>,
     readers: [Option<Held>; 2],
 }
 
@@ -200,6 +289,21 @@ fn finish_async(rt: &tokio::runtime::Runtime, p: Pending) -> Obs {
     rt.block_on(p.walk);
     let walk = p.walked.lock().unwrap().clone();
     Obs { answers, walk }
+}
+
+/// Poll a future a bounded number of times: a future that only yields gets
+/// through, one that waits for a lock somebody keeps does not.
+fn poll_bounded<F: Future>(rt: &tokio::runtime::Runtime, fut: F, polls: usize) -> Option<F::Output> {
+    let _g = rt.enter();
+    let mut fut = std::pin::pin!(fut);
+    let waker = futures_util::task::noop_waker();
+    let mut cx = std::task::Context::from_waker(&waker);
+    for _ in 0..polls {
+        if let std::task::Poll::Ready(x) = fut.as_mut().poll(&mut cx) {
+            return Some(x);
+        }
+    }
+    None
 }
 
 /// which parts of two full answers differ
@@ -323,15 +427,21 @@ fn nodes_of(c: &Content) -> BTreeSet<RelName> {
 }
 
 fn enabled(m: &Model, op: Op, thorough: bool) -> bool {
+    // the low-level writer of part (a)
+    let w_open = m.working.is_some() && m.upd == U_NONE;
     match op {
-        Op::WOpen | Op::WOpenDiff => m.working.is_none(),
-        Op::WCommitFault => m.working.is_some() && m.diff_mode,
-        Op::WCommitReopen => m.working.is_some() && !m.diff_mode,
+        Op::WOpen | Op::WOpenDiff => m.working.is_none() && m.upd == U_NONE,
+        Op::WCommitFault => w_open && m.diff_mode,
+        Op::WCommitReopen => w_open && !m.diff_mode,
         Op::W2Try => m.working.is_some(),
-        Op::WUpd(..) | Op::WRm(_) | Op::WRemoveAll | Op::WCommit | Op::WDrop | Op::WCname => m.working.is_some(),
-        Op::WCommitBump => m.working.is_some() && !m.diff_mode,
-        Op::WCommitKeepNode => thorough && m.working.is_some() && !m.stale_node && !m.diff_mode, // with a diff this is WCommitFault
+        Op::WUpd(..) | Op::WRm(_) | Op::WRemoveAll | Op::WCommit | Op::WDrop | Op::WCname => w_open,
+        Op::WCommitBump => w_open && !m.diff_mode,
+        Op::WCommitKeepNode => thorough && w_open && !m.stale_node && !m.diff_mode, // with a diff this is WCommitFault
         Op::WStaleUpd(..) => m.stale_node,
+        // the updater of part (u)
+        Op::UNew => m.working.is_none() && matches!(m.upd, U_NONE | U_FINISHED),
+        Op::UAdd(_) | Op::UDel(_) | Op::UDeleteAll | Op::UBeginDel | Op::UBeginAdd | Op::UFinished => in_grammar(m.upd, op) || (thorough && off_grammar_not_committing(m.upd, op)) || (m.upd == U_FINISHED && op == Op::UAdd(0)),
+        Op::UDrop => m.upd != U_NONE,
         Op::RAcq(i) => m.readers[i as usize].is_none(),
         Op::RObs(i) | Op::RRel(i) => m.readers[i as usize].is_some(),
     }
@@ -520,6 +630,113 @@ fn step(m: &mut Model, r: &mut Real, op: Op, fin: bool, out: &mut Vec<Viol>) {
             m.working = None;
             m.diff_mode = false;
         }
+        Op::UNew => {
+            // Nobody else has the zone open (model), so the updater must get it at
+            // once - also when a finished updater is still alive.
+            let got = poll_bounded(&r.rt, ZoneUpdater::<StoredName>::new(r.zone.clone()), 16);
+            match got {
+                Some(Ok(u)) => r.updater = Some(u), // (a finished one goes away now)
+                Some(Err(_)) => out.push(Viol { sig: format!("C09|updater|new|zone-cannot-be-opened-for-writing|finished-updater-alive={}", m.upd == U_FINISHED), what: format!("ZoneUpdater::new failed on a zone no writer has open (version {})", m.committed.len() - 1) }),
+                None => out.push(Viol { sig: format!("C09|updater|new|zone-not-given-back|finished-updater-alive={}", m.upd == U_FINISHED), what: format!("ZoneUpdater::new does not complete although no writer has the zone open (version {}; a finished updater is still alive: {})", m.committed.len() - 1, m.upd == U_FINISHED) }),
+            }
+            m.working = Some(m.committed.last().unwrap().clone());
+            m.upd = U_NORMAL;
+            m.diff_mode = false;
+        }
+        Op::UAdd(_) | Op::UDel(_) | Op::UDeleteAll | Op::UBeginDel | Op::UBeginAdd | Op::UFinished => {
+            let next = top_serial(m) + 1;
+            let soa = |serial: u32| -> StoredRecord { record_of(&vec![], &Rd::Soa(serial)) };
+            let update = match op {
+                Op::UAdd(k) => ZoneUpdate::AddRecord(record_of(&urec(k).0, &urec(k).1)),
+                Op::UDel(k) => ZoneUpdate::DeleteRecord(record_of(&urec(k).0, &urec(k).1)),
+                Op::UDeleteAll => ZoneUpdate::DeleteAllRecords,
+                Op::UBeginDel => ZoneUpdate::BeginBatchDelete(soa(m.working.as_ref().and_then(soa_serial).unwrap_or(next - 1))),
+                Op::UBeginAdd => ZoneUpdate::BeginBatchAdd(soa(next)),
+                _ => ZoneUpdate::Finished(soa(next)),
+            };
+            let accepted = r.rt.block_on(r.updater.as_mut().unwrap().apply(update)).is_ok();
+            let phase = m.upd;
+            let opname = format!("{:?}", op);
+            let opname = opname.split('(').next().unwrap().to_string();
+            // nodes on the way to the owner are created (see the known findings)
+            if let (Op::UAdd(k) | Op::UDel(k), true) = (op, phase != U_FINISHED) {
+                let name = urec(k).0;
+                for i in 1..=name.len() {
+                    m.nodes.insert(name[..i].to_vec());
+                }
+            }
+            if phase == U_FINISHED {
+                // documented: after Finished further calls to apply() fail
+                if accepted {
+                    out.push(Viol { sig: "C09|updater|apply|update-accepted-after-Finished".into(), what: format!("apply({opname}) succeeded on an updater that has already applied Finished (version {})", m.committed.len() - 1) });
+                }
+                return;
+            }
+            if !in_grammar(phase, op) {
+                // outside the documented sequences: only "nothing becomes visible" is left to check
+                m.upd = U_UNSPEC;
+                return;
+            }
+            // Refusals the documentation does not exclude: deleting a record the
+            // version does not hold, adding one it holds, a batch on top of a version
+            // without SOA. What the version being written holds afterwards is not specified.
+            let held = |k: u8| m.working.as_ref().unwrap().names.get(&urec(k).0).map(|s| s.contains(&urec(k).1)).unwrap_or(false);
+            let may_refuse = match op {
+                Op::UAdd(k) => held(k),
+                Op::UDel(k) => !held(k),
+                Op::UBeginDel => m.working.as_ref().and_then(soa_serial).is_none(),
+                _ => false,
+            };
+            if !accepted && may_refuse {
+                m.upd = U_UNSPEC;
+                return;
+            }
+            if !accepted {
+                out.push(Viol { sig: format!("C09|updater|apply|documented-update-sequence-refused|op={opname}|phase={phase}"), what: format!("apply({:?}) failed in phase {phase} of an updater working on top of version {}", op, m.committed.len() - 1) });
+                return;
+            }
+            let w = m.working.as_mut().unwrap();
+            match op {
+                Op::UAdd(k) => {
+                    let (name, rd) = urec(k);
+                    w.names.entry(name).or_default().insert(rd);
+                }
+                Op::UDel(k) => {
+                    let (name, rd) = urec(k);
+                    if let Some(set) = w.names.get_mut(&name) {
+                        set.remove(&rd);
+                        if set.is_empty() {
+                            w.names.remove(&name);
+                        }
+                    }
+                }
+                Op::UDeleteAll => w.names.clear(),
+                Op::UBeginDel => {
+                    // "will also commit any edits in progress and re-open the zone for editing again"
+                    let c = w.clone();
+                    m.committed.push(c);
+                    m.upd = U_DEL;
+                }
+                Op::UBeginAdd => {
+                    // "the SOA record to use for the new version of the zone"
+                    put_soa(w, next);
+                    m.upd = U_ADD;
+                }
+                _ => {
+                    // Finished: "changes to the zone are committed when Finished is received"
+                    put_soa(w, next);
+                    let c = m.working.take().unwrap();
+                    m.committed.push(c);
+                    m.upd = U_FINISHED;
+                }
+            }
+        }
+        Op::UDrop => {
+            // before Finished: "rolled back if ZoneUpdater is dropped before receiving Finished"
+            drop(r.updater.take());
+            m.working = None;
+            m.upd = U_NONE;
+        }
         Op::RAcq(i) => {
             let rd = r.zone.read();
             let first = take(rd.as_ref());
@@ -637,6 +854,14 @@ fn parse_op(t: &str) -> Op {
         "W2Try" => Op::W2Try,
         "WStaleUpd" => Op::WStaleUpd(nums[0], nums[1]),
         "WDrop" => Op::WDrop,
+        "UNew" => Op::UNew,
+        "UAdd" => Op::UAdd(nums[0]),
+        "UDel" => Op::UDel(nums[0]),
+        "UDeleteAll" => Op::UDeleteAll,
+        "UBeginDel" => Op::UBeginDel,
+        "UBeginAdd" => Op::UBeginAdd,
+        "UFinished" => Op::UFinished,
+        "UDrop" => Op::UDrop,
         "RAcq" => Op::RAcq(nums[0]),
         "RObs" => Op::RObs(nums[0]),
         "RRel" => Op::RRel(nums[0]),
@@ -647,8 +872,8 @@ fn parse_op(t: &str) -> Op {
 fn fresh() -> (Model, Real) {
     let c = initial_content();
     let zone = build_direct(&c, false);
-    let m = Model { committed: vec![c.clone()], working: None, diff_mode: false, stale_node: false, stale_written: false, readers: [None, None], nodes: nodes_of(&c), reader_nodes: [BTreeSet::new(), BTreeSet::new()] };
-    (m, Real { zone, rt: rt(), writer: None, stale: None, readers: [None, None] })
+    let m = Model { committed: vec![c.clone()], working: None, upd: U_NONE, diff_mode: false, stale_node: false, stale_written: false, readers: [None, None], nodes: nodes_of(&c), reader_nodes: [BTreeSet::new(), BTreeSet::new()] };
+    (m, Real { zone, rt: rt(), writer: None, stale: None, updater: None, readers: [None, None] })
 }
 
 fn replay(hist: &[Op], out: &mut Vec<Viol>) -> (Model, Real) {
@@ -678,37 +903,14 @@ fn zone_digest(r: &Real) -> u64 {
     fnv(lines.join("\n").as_bytes())
 }
 
-fn main() {
-    let ctx = Ctx::new("C09", "model_checking");
-    let stats = Stats::new();
-    let thorough = !ctx.quick();
-    let mut ops: Vec<Op> = vec![Op::WOpen, Op::WOpenDiff, Op::WUpd(0, 2), Op::WUpd(1, 3), Op::WUpd(2, 4), Op::WRm(0), Op::WRemoveAll, Op::WCname, Op::WCommitBump, Op::WCommit, Op::WCommitFault, Op::WCommitReopen, Op::W2Try, Op::WDrop, Op::RAcq(0), Op::RObs(0), Op::RRel(0), Op::RAcq(1), Op::RObs(1)];
-    if thorough {
-        ops.extend([Op::WUpd(0, 5), Op::WRm(1), Op::WCommitKeepNode, Op::WStaleUpd(0, 7), Op::WStaleUpd(2, 8), Op::RRel(1)]);
-    }
-    let depth = if thorough { 8 } else { 7 };
+struct Explored {
+    states: u64,
+    transitions: u64,
+    samples: Vec<Value>,
+}
 
-    if let Some(p) = &ctx.replay {
-        // replay one stored history on a fresh real zone, without the explorer
-        let v: Value = serde_json::from_str(&std::fs::read_to_string(p).expect("replay")).expect("json");
-        let hist: Vec<Op> = v["case"]["ops"].as_array().expect("ops").iter().map(|o| parse_op(o.as_str().unwrap())).collect();
-        println!("replaying {} operations: {:?}", hist.len(), hist);
-        for n in 1..=hist.len() {
-            let mut viol = Vec::new();
-            match guard(|| {
-                replay(&hist[..n], &mut viol);
-            }) {
-                Ok(()) => {}
-                Err(p) => viol.push(Viol { sig: format!("C09|panic|{}", panic_class(&p)), what: p }),
-            }
-            for x in viol {
-                println!("  after step {n} ({:?}): {}", hist[n - 1], x.what);
-                ctx.violation(&x.sig, &x.what, json!({"ops": hist[..n].iter().map(|o| format!("{:?}", o)).collect::<Vec<_>>()}));
-            }
-        }
-        ctx.finish_quiet();
-    }
-
+/// BFS over all histories of `ops` to `depth`, every history replayed on a fresh real zone.
+fn explore(ctx: &Ctx, stats: &Stats, ops: &[Op], depth: usize, thorough: bool, prefix: &str) -> Explored {
     let mut frontier: Vec<Vec<Op>> = vec![vec![]];
     let mut seen: HashSet<(u64, u64)> = HashSet::new();
     let mut states = 1u64;
@@ -724,7 +926,7 @@ fn main() {
                     Err(_) => return Vec::new().into_iter(),
                 };
                 let mut outv = Vec::new();
-                for &op in &ops {
+                for &op in ops {
                     if !enabled(&m, op, thorough) {
                         continue;
                     }
@@ -768,16 +970,61 @@ fn main() {
                 next.push(h);
             }
         }
-        stats.count_n(&format!("frontier.depth{}", d + 1), next.len() as u64);
+        stats.count_n(&format!("{prefix}frontier.depth{}", d + 1), next.len() as u64);
         frontier = next;
     }
+    if let Some(h) = frontier.last() {
+        samples.push(json!(h.iter().map(|o| format!("{:?}", o)).collect::<Vec<_>>()));
+    }
+    Explored { states, transitions, samples }
+}
+
+fn main() {
+    let ctx = Ctx::new("C09", "model_checking");
+    let stats = Stats::new();
+    let thorough = !ctx.quick();
+    let mut ops: Vec<Op> = vec![Op::WOpen, Op::WOpenDiff, Op::WUpd(0, 2), Op::WUpd(1, 3), Op::WUpd(2, 4), Op::WRm(0), Op::WRemoveAll, Op::WCname, Op::WCommitBump, Op::WCommit, Op::WCommitFault, Op::WCommitReopen, Op::W2Try, Op::WDrop, Op::RAcq(0), Op::RObs(0), Op::RRel(0), Op::RAcq(1), Op::RObs(1)];
+    if thorough {
+        ops.extend([Op::WUpd(0, 5), Op::WRm(1), Op::WCommitKeepNode, Op::WStaleUpd(0, 7), Op::WStaleUpd(2, 8), Op::RRel(1)]);
+    }
+    let depth = if thorough { 8 } else { 7 };
+
+    if let Some(p) = &ctx.replay {
+        // replay one stored history on a fresh real zone, without the explorer
+        let v: Value = serde_json::from_str(&std::fs::read_to_string(p).expect("replay")).expect("json");
+        let hist: Vec<Op> = v["case"]["ops"].as_array().expect("ops").iter().map(|o| parse_op(o.as_str().unwrap())).collect();
+        println!("replaying {} operations: {:?}", hist.len(), hist);
+        for n in 1..=hist.len() {
+            let mut viol = Vec::new();
+            match guard(|| {
+                replay(&hist[..n], &mut viol);
+            }) {
+                Ok(()) => {}
+                Err(p) => viol.push(Viol { sig: format!("C09|panic|{}", panic_class(&p)), what: p }),
+            }
+            for x in viol {
+                println!("  after step {n} ({:?}): {}", hist[n - 1], x.what);
+                ctx.violation(&x.sig, &x.what, json!({"ops": hist[..n].iter().map(|o| format!("{:?}", o)).collect::<Vec<_>>()}));
+            }
+        }
+        ctx.finish_quiet();
+    }
+
+    let a = explore(&ctx, &stats, &ops, depth, thorough, "");
+    // part (u): the writer is a ZoneUpdater
+    let mut uops: Vec<Op> = vec![Op::UNew, Op::UAdd(0), Op::UAdd(1), Op::UDel(2), Op::UDel(3), Op::UDeleteAll, Op::UBeginDel, Op::UBeginAdd, Op::UFinished, Op::UDrop, Op::W2Try, Op::RAcq(0), Op::RObs(0), Op::RRel(0), Op::RAcq(1), Op::RObs(1)];
+    if thorough {
+        uops.extend((0..UREC_ALL).flat_map(|k| [Op::UAdd(k), Op::UDel(k)]).filter(|o| !uops.contains(o)).collect::<Vec<_>>());
+        uops.push(Op::RRel(1));
+    }
+    let udepth = if thorough { 8 } else { 7 };
+    let u = explore(&ctx, &stats, &uops, udepth, thorough, "updater.");
+    let (states, transitions) = (a.states + u.states, a.transitions + u.transitions);
+    let samples = a.samples;
     let per = (QNAMES.len() * QTYPES.len() + 1) as u64; // full answers + the walk
     for (k, c) in [("observe.new-reader-vs-committed-content", &N_NEW_READER), ("observe.held-reader-sync-vs-acquisition", &N_PINNED), ("observe.async-awaited-at-once-vs-sync", &N_AGREE), ("observe.async-future-kept-across-steps-vs-acquisition", &N_DEFERRED), ("observe.async-future-awaited-after-release-vs-acquisition", &N_AFTER_RELEASE)] {
         stats.count_n(k, c.load(Ordering::Relaxed));
         stats.count_n("observe.answers-and-walks-compared", c.load(Ordering::Relaxed) * per);
-    }
-    if let Some(h) = frontier.last() {
-        samples.push(json!(h.iter().map(|o| format!("{:?}", o)).collect::<Vec<_>>()));
     }
     ctx.finish(
         json!({
@@ -786,7 +1033,8 @@ fn main() {
             "traces_validated_against_impl": transitions,
             "evaluations": transitions,
             "distinct_nontrivial": stats.distinct_count(),
-            "rule": "BFS over all interleavings (operation granularity) of one writer at a time (open with and without diff collection/update (with read-back through the writer)/remove/remove_all/turning a name into a CNAME and back/commit with serial bump/commit/commit-then-reopen (multi-batch)/a second writer's attempt to get the zone while the first is open/commit that unwinds at its documented panic point (diff collected + node handle alive)/drop; thorough: also commit-keeping-the-node and writes through that stale node) and two readers (acquire/observe/release) to the depth bound, every history replayed on a fresh real zone; states deduplicated on (model state, sorted Debug rendering of the real zone incl. version vectors; observations and pending futures are not part of the key). A reader's observation = full answers (rcode, AA, answer, authority incl. the SOA of negative answers, additional; via Answer::to_message) to 7 names (incl. the apex) x 4 types (A, SOA, NS, CNAME) + the walk, taken through every ReadableZone entry point: query()/walk(); query_async()/walk_async() awaited at once (must agree with the synchronous route at the same moment); query_async()/walk_async() futures created at acquisition and kept across the following writer steps, awaited at the next observation or after the reader was released (must show the pinned version); is_async() stable while held. New readers: walk equals the committed content, every record in every section of every answer is held by the committed version, apex SOA/NS answers equal the committed RRsets",
+            "rule": "BFS over all interleavings (operation granularity) of one writer at a time (open with and without diff collection/update (with read-back through the writer)/remove/remove_all/turning a name into a CNAME and back/commit with serial bump/commit/commit-then-reopen (multi-batch)/a second writer's attempt to get the zone while the first is open/commit that unwinds at its documented panic point (diff collected + node handle alive)/drop; thorough: also commit-keeping-the-node and writes through that stale node) and two readers (acquire/observe/release) to the depth bound, every history replayed on a fresh real zone; states deduplicated on (model state, sorted Debug rendering of the real zone incl. version vectors; observations and pending futures are not part of the key). A reader's observation = full answers (rcode, AA, answer, authority incl. the SOA of negative answers, additional; via Answer::to_message) to 7 names (incl. the apex) x 4 types (A, SOA, NS, CNAME) + the walk, taken through every ReadableZone entry point: query()/walk(); query_async()/walk_async() awaited at once (must agree with the synchronous route at the same moment); query_async()/walk_async() futures created at acquisition and kept across the following writer steps, awaited at the next observation or after the reader was released (must show the pinned version); is_async() stable while held. New readers: walk equals the committed content, every record in every section of every answer is held by the committed version, apex SOA/NS answers equal the committed RRsets. Part (u): a second BFS of the same kind (same readers, observations, oracles and state key) in which the writer is zonetree::update::ZoneUpdater: new (also while a finished updater is still alive: the zone must have been given back) / apply(AddRecord), apply(DeleteRecord) of records at the apex and below it, present and absent in the version edited / apply(DeleteAllRecords) / apply(BeginBatchDelete) / apply(BeginBatchAdd) / apply(Finished) / apply after Finished (must be refused) / drop of the updater at any point / a second writer's attempt to get the zone while the updater has it, in the sequences the ZoneUpdate documentation describes (single updates then Finished; single updates then batches; batches of BeginBatchDelete, deletes, BeginBatchAdd, adds; thorough: also non-committing updates outside these sequences, after which only the committed content is specified). Model from the documentation only: the edits in progress become the current version at BeginBatchDelete and at Finished and nowhere else, BeginBatchAdd and Finished put their SOA into the version being written, a drop before Finished leaves the last committed version",
+            "updater_part": {"depth": udepth, "alphabet": uops.iter().map(|o| format!("{:?}", o)).collect::<Vec<_>>(), "records": (0..UREC_ALL).map(|k| format!("{}: {} {:?}", k, show(&urec(k).0), urec(k).1)).collect::<Vec<_>>(), "states": u.states, "transitions": u.transitions, "samples": u.samples},
             "observation": {"qnames": QNAMES.iter().map(|q| show_q(q)).collect::<Vec<_>>(), "qtypes": QTYPES.iter().map(|t| t.to_string()).collect::<Vec<_>>(), "entry_points": ["query", "walk", "query_async (awaited at once)", "walk_async (awaited at once)", "query_async (future kept across later steps)", "walk_async (future kept across later steps)", "query_async/walk_async (future awaited after release)", "is_async"], "questions_per_observation": QNAMES.len() * QTYPES.len()},
             "exhaustive": true,
             "depth": depth,
